@@ -220,12 +220,13 @@ def ob_roundtrip_dict():
     import passlib.utils.handlers as uh
     import passlib.context as C
     ZInt.MESSAGE_SITES |= {"norm_integer", "using", "_norm_rounds", "_clip_to_valid_salt_size"}
-    mn, mx, df, amn, ss, nv = [ZInt.var(n) for n in ("mn", "mx", "df", "amn", "ss", "nv")]
+    mn, mx, df, amn, ss, nv, av, nav = [ZInt.var(n) for n in ("mn", "mx", "df", "amn", "ss", "nv", "av", "nav")]
     B = z3.And(mn.e >= 1000, mn.e <= 5000, mx.e >= 6000, mx.e <= 999999999, df.e >= 5000, df.e <= 6000, amn.e >= 1000, amn.e <= 5000,
-               ss.e >= 0, ss.e <= 8, nv.e >= 1000, nv.e <= 5000)
+               ss.e >= 0, ss.e <= 8, nv.e >= 1000, nv.e <= 5000, av.e >= 0, av.e <= 100, nav.e >= 0, nav.e <= 100)
     cfg = dict(schemes=["md5_crypt", "sha256_crypt", "des_crypt"], default="sha256_crypt", deprecated=["des_crypt"],
                sha256_crypt__min_rounds=mn, sha256_crypt__max_rounds=mx, sha256_crypt__default_rounds=df,
-               admin__sha256_crypt__min_rounds=amn, md5_crypt__salt_size=ss, admin__context__deprecated=["md5_crypt", "des_crypt"])
+               admin__sha256_crypt__min_rounds=amn, md5_crypt__salt_size=ss, admin__context__deprecated=["md5_crypt", "des_crypt"],
+               all__vary_rounds=av, all__truncate_error=True)
 
     def deq(a, b):
         if set(a) != set(b):
@@ -250,22 +251,33 @@ def ob_roundtrip_dict():
         c5 = ctx.copy()
         c5.update(sha256_crypt__min_rounds=nv)
         d5 = c5.to_dict()
-        return d, c2.to_dict(), c3.to_dict(), c4.to_dict(), d5, ctx.to_dict()
+        # the other spellings of a key name the same setting: bare context-wide options, dotted separators
+        c6 = ctx.copy()
+        c6.update(vary_rounds=nav)
+        c7 = ctx.copy()
+        c7.update({"sha256_crypt.min_rounds": nv})
+        c8 = ctx.copy(truncate_error=False)
+        return d, c2.to_dict(), c3.to_dict(), c4.to_dict(), d5, ctx.to_dict(), c6.to_dict(), c7.to_dict(), c8.to_dict()
     with patched((uh, "int", int_), (C, "int", int_)):
         paths = explore(run, max_paths=4000)
     for p in paths:
         if p.exc is not None:
             return inconclusive("raised %r" % (p.exc,))
-        d, d2, d3, d4, d5, d0 = p.result
+        d, d2, d3, d4, d5, d0, d6, d7, d8 = p.result
         exp = dict(cfg)
         exp5 = dict(d)
         exp5["sha256_crypt__min_rounds"] = nv
-        claims = [deq(d, exp), deq(d2, d), deq(d3, d), deq(d4, d), deq(d5, exp5), deq(d0, d)]
+        exp6 = dict(d)
+        exp6["all__vary_rounds"] = nav
+        exp8 = dict(d)
+        exp8["all__truncate_error"] = False
+        claims = [deq(d, exp), deq(d2, d), deq(d3, d), deq(d4, d), deq(d5, exp5), deq(d0, d), deq(d6, exp6), deq(d7, exp5), deq(d8, exp8)]
         r, m = valid(z3.And(*claims), p.cond())
         if r == "sat":
             bad = [i for i, c in enumerate(claims) if check(p.cond(), z3.Not(c))[0] == "sat"]
             return violation("CryptContext dict export/import: round-trip claims %s fail (0: to_dict==config, 1: CryptContext(**to_dict), "
-                             "2: copy, 3: update({}), 4: update(k=v) replaces exactly k, 5: original untouched)" % bad, "context:roundtrip",
+                             "2: copy, 3: update({}), 4: update(k=v) replaces exactly k, 5: original untouched, 6: update(vary_rounds=v) replaces "
+                             "all__vary_rounds, 7: dotted key spelling, 8: copy(truncate_error=False))" % bad, "context:roundtrip",
                              {"module": "harness.c10", "func": "replay_roundtrip", "args": {}})
         if r != "unsat":
             return inconclusive("solver %s" % r)
@@ -296,6 +308,18 @@ def replay_roundtrip():
         e["sha256_crypt__min_rounds"] = 1500
         if c.to_dict() != e or ctx.to_dict() != d:
             return "update(k=v) did not replace exactly k"
+        # other spellings of the same key
+        base = CryptContext(all__vary_rounds=10, all__truncate_error=True, **cfg)
+        for label, mk, key, val in (("update(vary_rounds=20)", lambda c: c.update(vary_rounds=20), "all__vary_rounds", 20),
+                                    ("update({'sha256_crypt.min_rounds': 1500})", lambda c: c.update({"sha256_crypt.min_rounds": 1500}), "sha256_crypt__min_rounds", 1500),
+                                    ("update(truncate_error=False)", lambda c: c.update(truncate_error=False), "all__truncate_error", False),
+                                    ("update('[passlib]\\nvary_rounds = 20')", lambda c: c.update("[passlib]\nvary_rounds = 20\n"), "all__vary_rounds", 20)):
+            c = base.copy()
+            mk(c)
+            e = dict(base.to_dict())
+            e[key] = val
+            if c.to_dict() != e:
+                return "%s on %r gives %r, expected %r" % (label, base.to_dict(), c.to_dict(), e)
     return False
 
 
